@@ -117,7 +117,7 @@ class TagModel(ScanModel):
                 return [(True, st.with_(not_at_end=True).set_flag("at_end", None)), (False, st.with_(not_next=st.not_next | frozenset(toks)))]
         if isinstance(e, ast.Name) and st.flag("empty:" + e.id) is not None:
             return [(not st.flag("empty:" + e.id), st)]
-        if isinstance(e, ast.Compare) and norm(e) in ("len(stack) > 0", "len(stack)") and st.flag("nonempty:stack"):
+        if isinstance(e, ast.Compare) and isinstance(e.left, ast.Call) and norm(e.left.func) == "len" and e.left.args and isinstance(e.left.args[0], ast.Name) and norm(e) == f"len({e.left.args[0].id}) > 0" and st.flag("nonempty:" + e.left.args[0].id):
             return [(True, st)]
         return super().atom(e, st)
 
@@ -160,10 +160,10 @@ class TagModel(ScanModel):
         if isinstance(node, ast.Assign) and len(node.targets) == 1 and isinstance(node.targets[0], ast.Name) and isinstance(node.value, ast.Constant) and isinstance(node.value.value, bool):
             return [st.set_flag(node.targets[0].id, node.value.value)]
         # stack = [x]: the container loop runs at least once
-        if isinstance(node, ast.Assign) and len(node.targets) == 1 and norm(node.targets[0]) == "stack" and isinstance(node.value, ast.List) and node.value.elts:
-            return [st.set_flag("nonempty:stack", True)]
-        if isinstance(node, ast.Expr) and isinstance(node.value, ast.Call) and norm(node.value.func) == "stack.pop":
-            return [st.set_flag("nonempty:stack", None)]
+        if isinstance(node, ast.Assign) and len(node.targets) == 1 and isinstance(node.targets[0], ast.Name) and isinstance(node.value, ast.List) and node.value.elts:
+            return [st.set_flag("nonempty:" + node.targets[0].id, True)]
+        if isinstance(node, ast.Expr) and isinstance(node.value, ast.Call) and isinstance(node.value.func, ast.Attribute) and node.value.func.attr == "pop" and isinstance(node.value.func.value, ast.Name):
+            return [st.set_flag("nonempty:" + node.value.func.value.id, None)]
         # index -= len(v): undo the lookahead
         if isinstance(node, ast.AugAssign) and isinstance(node.op, ast.Sub) and norm(node.target) == "index" and isinstance(node.value, ast.Call) and norm(node.value.func) == "len" and node.value.args and isinstance(node.value.args[0], ast.Name):
             v = node.value.args[0].id
@@ -203,7 +203,8 @@ def _check_primitives(chk: Check, m: Module, f: FuncNode) -> Dict[str, FuncNode]
     ok("take_until", len([n for n in body_walk(tu) if isinstance(n, ast.While)]) == 1 and any(norm(c.args[0]) == params(tu)[0] for c in calls(tu, "is_next_token") if c.args), "loop: stop when is_next_token(tokens)")
     es = prim["extract_spread_token"]
     consuming = [c for c in calls(es) if isinstance(c.func, ast.Name) and c.func.id in ("taken_n", "take_while", "take_until", "add_token")]
-    guarded = all(any(pol and "spread_token is not None" in t for t, pol in cond_atoms(enclosing_stmt(c))) for c in consuming)
+    spv = next((norm(r.value) for r in ast.walk(es) if isinstance(r, ast.Return) and isinstance(r.value, ast.Name)), "spread_token")
+    guarded = all(any(pol and f"{spv} is not None" in t for t, pol in cond_atoms(enclosing_stmt(c))) for c in consuming)
     first_test = any(isinstance(n, ast.Assign) and isinstance(n.value, ast.Call) and norm(n.value) == "is_next_token(TAG_SPREAD)" for n in body_walk(es))
     ok("extract_spread_token", bool(consuming) and guarded and first_test, "consumes only under `spread_token is not None`, which requires is_next_token(TAG_SPREAD)")
     # is_next_token: true only if some token matches character by character under a bounds test
@@ -260,6 +261,10 @@ def s1_tag_parser(chk: Check, proj: Project) -> None:
 # S1: character scanner (_detailed_tag_parser)
 # ---------------------------------------------------------------------------------------------
 class CharModel(ScanModel):
+    def __init__(self, proj: Project, mod: Module, func: FuncNode):
+        super().__init__(proj, mod, func)
+        self.length_var = next((n.targets[0].id for n in func.body if isinstance(n, ast.Assign) and isinstance(n.targets[0], ast.Name) and norm(n.value) == "len(text)"), "length")
+
     def charset(self, e: ast.AST) -> Optional[FrozenSet[str]]:
         ok, v = self.fold(e)
         if ok and isinstance(v, str) and len(v) == 1:
@@ -271,7 +276,7 @@ class CharModel(ScanModel):
     def atom(self, e: ast.AST, st: Facts) -> List[Tuple[bool, Facts]]:
         if isinstance(e, ast.Compare) and len(e.ops) == 1:
             l, op, r = e.left, e.ops[0], e.comparators[0]
-            if norm(l) == "index" and norm(r) == "length" and isinstance(op, ast.Lt):
+            if norm(l) == "index" and isinstance(r, ast.Name) and r.id == self.length_var and isinstance(op, ast.Lt):
                 return [(True, st.with_(not_at_end=True)), (False, st)]
             if isinstance(l, ast.Name) and st.flag("curvar") == l.id:
                 s = self.charset(r)
@@ -326,7 +331,7 @@ def s1_char_scanner(chk: Check, proj: Project) -> None:
     # the compiled pattern is a negated class of the stop chars (so a non-stop char at the cursor is consumed)
     pm, pf = proj.func("util.template_parser", "_compile_take_until_pattern")
     src = norm(pf)
-    okp2 = "[^{escaped_stops}]*" in src and "re.escape" in src
+    okp2 = ("[^{" in src and "}]*" in src) and "re.escape" in src
     chk.ob("S1", "util.template_parser:_compile_take_until_pattern:negated-class", pm.loc(pf), True if okp2 else None, "pattern is `[^<escaped stops>]*` (optionally with `\\\\.` alternatives)", nontrivial=False)
     loops = [l for l in body_walk(f) if isinstance(l, ast.While)]
     if len(loops) != 1:
@@ -423,19 +428,20 @@ def s2_subscripts(chk: Check, proj: Project) -> None:
             okk = False
             why = ""
             if idx == "index":
-                okk = any((t in ("is_at_end()", "index >= length") and not pol) or (t == "index < length" and pol) for t, pol in atoms)
+                okk = any((t == "is_at_end()" and not pol) or (t.startswith("index >= ") and not pol) or (t.startswith("index < ") and pol) for t, pol in atoms)
                 # character scanners re-test in the enclosing while
                 for a in ancestors(sub):
-                    if isinstance(a, ast.While) and norm(a.test) in ("not is_at_end()", "index < length"):
+                    if isinstance(a, ast.While) and (norm(a.test) == "not is_at_end()" or norm(a.test).startswith("index < ")):
                         okk = True
                 why = "`not is_at_end()` / `index < length`"
             elif idx.startswith("index + "):
                 off = idx[len("index + "):]
                 okk = any(t == f"is_at_end({off})" and not pol for t, pol in atoms)
                 why = f"`not is_at_end({off})`"
-            elif idx == "peek_index":
-                okk = any(t == "peek_index >= length" and not pol for t, pol in atoms)
-                why = "`peek_index < length`"
+            elif isinstance(sub.slice, ast.Name):
+                # text[v]: guarded by `v >= <len(text) var>` being false / `v < <len var>` being true
+                okk = any((t.startswith(f"{idx} >= ") and not pol) or (t.startswith(f"{idx} < ") and pol) for t, pol in atoms)
+                why = f"`{idx} < len(text)`"
             key = f"{mn}:{qual_of(sub)}:text[{idx}]"
             chk.ob("S2b", key, m.loc(sub), okk, f"text[{idx}] is read under {why}" if okk else f"text[{idx}] is read without the bounds test for that offset ({why} expected; conditions: {atoms[:3]}): a tag ending in a prefix of a multi-character token raises IndexError instead of TemplateSyntaxError")
     m, f = proj.func("util.tag_parser", "parse_tag")
@@ -515,7 +521,8 @@ def s5_faithful(chk: Check, proj: Project) -> None:
     for p in [x for x in body_walk(f) if isinstance(x, ast.FunctionDef) and x.name in ("take_until", "take_while")]:
         for blk in [b for st in ast.walk(p) for b in (getattr(st, "body", None), getattr(st, "orelse", None)) if isinstance(b, list)]:
             for i, st in enumerate(blk):
-                if isinstance(st, ast.AugAssign) and norm(st.target) == "result" and isinstance(st.op, ast.Add):
+                resv = next((norm(r.value) for r in ast.walk(p) if isinstance(r, ast.Return) and isinstance(r.value, ast.Name)), "result")
+                if isinstance(st, ast.AugAssign) and norm(st.target) == resv and isinstance(st.op, ast.Add):
                     nxt = next((x for x in blk[i + 1:] if isinstance(x, ast.Expr) and isinstance(x.value, ast.Call) and norm(x.value.func) == "add_token"), None)
                     if nxt is None:
                         continue
